@@ -468,7 +468,7 @@ static void run_pool_reuse(void)
         ABT_OK(ABT_xstream_join(xs));
         for (int i = 0; i < PR.n; i++)
             SIM_CHECK(PR.done[i], "join:returned-before-units-finished", "round %d: ABT_xstream_join returned while unit %d of the stream's only pool has not finished (%s)", r, i,
-                      PR.blocks[i] ? "it was blocked on an eventual" : "it only yields");
+                      PR.blocks[i] ? (PR.use_barrier ? "it was blocked in ABT_barrier_wait" : "it was blocked on an eventual") : "it only yields");
         ABT_xstream_state st;
         ABT_OK(ABT_xstream_get_state(xs, &st));
         SIM_CHECK(st == ABT_XSTREAM_STATE_TERMINATED, "stream:not-terminated", "state %d after join", (int)st);
